@@ -23,11 +23,11 @@ PY = os.path.join(VERIF, ".venv", "bin", "python")
 MIN_ENV = {"PATH": "/usr/bin:/bin", "HOME": "/tmp", "PYTHONHASHSEED": "0", "LANG": "C.UTF-8"}
 
 MODULES = {  # property -> harness modules
-    "C01": ["harness.c01"], "C02": ["harness.c02"], "C03": ["harness.c03"], "C04": ["harness.c04"],
+    "C01": ["harness.c01"], "C02": ["harness.c02", "harness.deep"], "C03": ["harness.c03", "harness.deep"], "C04": ["harness.c04", "harness.deep"],
     "C05": ["harness.c05"], "C06": ["harness.c06"], "C07": ["harness.c07"], "C08": ["harness.c08"],
-    "C09": ["harness.c09"], "C10": ["harness.c10"], "C11": ["harness.c11"], "C12": ["harness.c12"],
-    "C13": ["harness.c13"], "C14": ["harness.c14"], "C15": ["harness.c15"], "C16": ["harness.c16"],
-    "C17": ["harness.c17"], "C18": ["harness.c18"], "C19": ["harness.c19"], "C20": ["harness.c20"],
+    "C09": ["harness.c09", "harness.deep"], "C10": ["harness.c10"], "C11": ["harness.c11"], "C12": ["harness.c12"],
+    "C13": ["harness.c13", "harness.deep"], "C14": ["harness.c14"], "C15": ["harness.c15"], "C16": ["harness.c16"],
+    "C17": ["harness.c17", "harness.deep"], "C18": ["harness.c18"], "C19": ["harness.c19"], "C20": ["harness.c20"],
 }
 
 
